@@ -535,49 +535,98 @@ theorem parseCells_spec (k : Nat) (cd : Bytes) (refSize : Nat) (s : Nat) (hr : r
 
 /-! ### back-patching and roots -/
 
-theorem checkRefs_spec (i : Int) (n : Nat) (rs : List Int) :
-    (∃ e, checkRefs i n rs = .err e) ∨ (checkRefs i n rs = .ok () ∧ ∀ r ∈ rs, i < r ∧ r < n) := by
-  induction rs with
-  | nil => exact .inr ⟨rfl, by simp⟩
+theorem getElem!_set!_ne (a : Array Nat) (k j d : Nat) (hj : j < a.size) (h : k ≠ j) :
+    (a.set! k d)[j]! = a[j]! := by
+  have hj' : j < (a.set! k d).size := by simp [hj]
+  rw [getElem!_pos _ j hj', getElem!_pos _ j hj]
+  simp only [Array.set!]
+  rw [Array.getElem_setIfInBounds_ne]
+  exact h
+
+theorem getElem!_set!_eq (a : Array Nat) (k d : Nat) (hk : k < a.size) : (a.set! k d)[k]! = d := by
+  have hk' : k < (a.set! k d).size := by simp [hk]
+  rw [getElem!_pos _ k hk']
+  simp only [Array.set!]
+  exact Array.getElem_setIfInBounds_self _
+
+theorem checkRefs_spec (depths : Array Nat) (i : Int) (n : Nat) (rs : List Int) (d : Nat) (hi : 0 ≤ i)
+    (hsz : depths.size = n) :
+    (∃ e, checkRefs depths i n rs d = .err e) ∨
+    (∃ d', checkRefs depths i n rs d = .ok d' ∧ d ≤ d' ∧
+      ∀ r ∈ rs, i < r ∧ r < n ∧ depths[r.toNat]! + 1 ≤ d') := by
+  induction rs generalizing d with
+  | nil => exact .inr ⟨d, rfl, Nat.le_refl _, by simp⟩
   | cons r rs ih =>
     unfold checkRefs
     split
     · exact .inl ⟨_, rfl⟩
     · split
       · exact .inl ⟨_, rfl⟩
-      · rcases ih with ⟨e, he⟩ | ⟨hok, hall⟩
+      · rename_i h1 h2
+        have hr : r.toNat < depths.size := by omega
+        simp only [Array.getElem?_eq_getElem hr]
+        rcases ih (if depths[r.toNat] + 1 > d then depths[r.toNat] + 1 else d) with ⟨e, he⟩ | ⟨d', hok, hle, hall⟩
         · exact .inl ⟨e, he⟩
-        · refine .inr ⟨hok, ?_⟩
+        · refine .inr ⟨d', hok, by split at hle <;> omega, ?_⟩
           intro x hx
           rcases List.mem_cons.1 hx with rfl | hx
-          · omega
+          · refine ⟨by omega, by omega, ?_⟩
+            rw [getElem!_pos depths x.toNat hr]
+            split at hle <;> omega
           · exact hall x hx
 
-/-- the property of a raw cell table established by the back-patching loop for the cells below `k` -/
-def Patched (cells : Array RawCell) (k : Nat) : Prop :=
-  ∀ i (h : i < cells.size), i < k → cells[i].refs.length ≤ 4 ∧ ∀ r ∈ cells[i].refs, (i : Int) < r ∧ r < (cells.size : Int)
+/-- the property of a raw cell table established by the back-patching loop for the cells at or above `k`:
+at most 4 references, each strictly forward and in range, and `depths` is a ranking bounded by the depth limit -/
+def Patched (cells : Array RawCell) (k : Nat) (depths : Array Nat) : Prop :=
+  depths.size = cells.size ∧
+  ∀ i (h : i < cells.size), k ≤ i → cells[i].refs.length ≤ 4 ∧ depths[i]! ≤ maxDepth ∧
+    ∀ r ∈ cells[i].refs, (i : Int) < r ∧ r < (cells.size : Int) ∧ depths[r.toNat]! + 1 ≤ depths[i]!
 
-theorem backPatch_spec (cells : Array RawCell) (k : Nat) (hk : k ≤ cells.size) :
-    (∃ e, backPatch cells k = .err e) ∨ (backPatch cells k = .ok () ∧ Patched cells k) := by
-  induction k with
-  | zero => exact .inr ⟨rfl, fun i _ h => by omega⟩
+theorem backPatch_spec (cells : Array RawCell) (k : Nat) (depths : Array Nat) (hk : k ≤ cells.size)
+    (hp : Patched cells k depths) :
+    (∃ e, backPatch cells k depths = .err e) ∨ (∃ ds, backPatch cells k depths = .ok ds ∧ Patched cells 0 ds) := by
+  induction k generalizing depths with
+  | zero => exact .inr ⟨depths, rfl, hp⟩
   | succ k ih =>
     unfold backPatch
     have hk' : k < cells.size := by omega
+    obtain ⟨hsz, hall⟩ := hp
     simp only [Array.getElem?_eq_getElem hk']
     split
     · exact .inl ⟨_, rfl⟩
     · rename_i hlen
-      rcases checkRefs_spec k cells.size cells[k].refs with ⟨e, he⟩ | ⟨hok, hall⟩
+      rcases checkRefs_spec depths k cells.size cells[k].refs 0 (by omega) hsz with ⟨e, he⟩ | ⟨d, hok, _, hrefs⟩
       · exact .inl ⟨e, by simp [he, bind, Outcome.bind]⟩
-      · rcases ih (by omega) with ⟨e, he⟩ | ⟨hbp, hp⟩
-        · exact .inl ⟨e, by simp [hok, he, bind, Outcome.bind]⟩
-        · refine .inr ⟨by simp [hok, hbp, bind, Outcome.bind], ?_⟩
-          intro i hi hik
-          by_cases h : i = k
-          · subst h
-            exact ⟨by omega, hall⟩
-          · exact hp i hi (by omega)
+      · simp only [hok, bind, Outcome.bind]
+        have hkd : k < depths.size := by omega
+        simp only [hkd, if_true]
+        split
+        · exact .inl ⟨_, rfl⟩
+        · rename_i hd
+          apply ih (depths.set! k d) (by omega)
+          refine ⟨by simp [hsz], ?_⟩
+          intro i hi hki
+          by_cases hik : i = k
+          · subst hik
+            have hget : (depths.set! i d)[i]! = d := getElem!_set!_eq depths i d hkd
+            refine ⟨by omega, by rw [hget]; omega, ?_⟩
+            intro r hr
+            obtain ⟨h1, h2, h3⟩ := hrefs r hr
+            have hgr : (depths.set! i d)[r.toNat]! = depths[r.toNat]! :=
+              getElem!_set!_ne depths i r.toNat d (by omega) (by omega)
+            rw [hget, hgr]
+            exact ⟨h1, h2, h3⟩
+          · have hgt : k + 1 ≤ i := by omega
+            obtain ⟨h4, hdi, hr⟩ := hall i hi hgt
+            have hgi : (depths.set! k d)[i]! = depths[i]! :=
+              getElem!_set!_ne depths k i d (by omega) (by omega)
+            refine ⟨h4, by rw [hgi]; exact hdi, ?_⟩
+            intro r hrm
+            obtain ⟨h1, h2, h3⟩ := hr r hrm
+            have hgr : (depths.set! k d)[r.toNat]! = depths[r.toNat]! :=
+              getElem!_set!_ne depths k r.toNat d (by omega) (by omega)
+            rw [hgi, hgr]
+            exact ⟨h1, h2, h3⟩
 
 theorem checkRoots_spec (n : Nat) (rs : List Nat) :
     (∃ e, checkRoots n rs = .err e) ∨ (checkRoots n rs = .ok () ∧ ∀ r ∈ rs, r < n) := by
@@ -608,9 +657,14 @@ structure RowOK (n i : Nat) (row : CellRow) : Prop where
   /-- a pruned branch holds the hashes and depths of all its lower levels -/
   pruned : row.ty = tyPruned → 2 + LevelMask.hashIndex row.mask * (hashSize + depthSize) ≤ (row.bits.length + 7) / 8
 
-/-- soundness of a parse result: every row is well formed and every root is a row -/
+/-- the cells are at most `maxDepth` = 1024 levels deep: `ds` ranks every row strictly above the rows it refers to -/
+def DepthOK (t : Table) : Prop :=
+  ∃ ds : Array Nat, ds.size = t.size ∧
+    ∀ i (h : i < t.size), ds[i]! ≤ maxDepth ∧ ∀ r ∈ t[i].refs, ds[r]! + 1 ≤ ds[i]!
+
+/-- soundness of a parse result: every row is well formed, every root is a row, no cell is deeper than the limit -/
 def Sound (t : Table) (roots : List Nat) : Prop :=
-  (∀ i (h : i < t.size), RowOK t.size i t[i]) ∧ ∀ r ∈ roots, r < t.size
+  (∀ i (h : i < t.size), RowOK t.size i t[i]) ∧ (∀ r ∈ roots, r < t.size) ∧ DepthOK t
 
 theorem toInt_u32 (x : Nat) (h : x < 4294967296) : (toInt x).toNat = x := by
   rw [toInt_small x (by unfold two63; omega)]; simp
@@ -634,8 +688,8 @@ theorem mul296 (c l : Nat) (h : 2 * c ≤ l) : 296 * c ≤ 148 * l := by
   exact this
 
 theorem parseBocM_spec (boc : Bytes) (hb : boc.length < two63) :
-    Spec (parseBocM boc) 0 (fun r s' => Sound r.1 r.2 ∧ s' ≤ 185 * boc.length + 8)
-      (fun s' => s' ≤ 185 * boc.length + 8) := by
+    Spec (parseBocM boc) 0 (fun r s' => Sound r.1 r.2 ∧ s' ≤ 189 * boc.length + 8)
+      (fun s' => s' ≤ 189 * boc.length + 8) := by
   unfold parseBocM
   apply spec_bind
   apply spec_mono (parseHeader_spec boc 0 hb)
@@ -661,10 +715,14 @@ theorem parseBocM_spec (boc : Bytes) (hb : boc.length < two63) :
       have hsize : cs.toArray.size = h.cellCount := by simp [hlen]
       have hK' := mul296 h.cellCount boc.length (by omega)
       generalize 296 * h.cellCount = K at hs2 hK'
-      simp only [szPtr, szSliceHdr] at *
+      simp only [szPtr, szSliceHdr, szUint] at *
       rw [start_u32 _ hcc]
       apply spec_bind
-      rcases backPatch_spec cs.toArray h.cellCount (by omega) with ⟨e, he⟩ | ⟨hok, hp⟩
+      apply spec_makeSlice (by omega)
+      have hp0 : Patched cs.toArray h.cellCount (Array.replicate cs.toArray.size 0) :=
+        ⟨by simp, fun i hi hki => by omega⟩
+      apply spec_bind
+      rcases backPatch_spec cs.toArray h.cellCount _ (by omega) hp0 with ⟨e, he⟩ | ⟨ds, hok, hp⟩
       · rw [he]; exact spec_fail (by omega)
       · apply spec_lift_ok hok
         apply spec_bind
@@ -674,11 +732,12 @@ theorem parseBocM_spec (boc : Bytes) (hb : boc.length < two63) :
         · rw [he]; exact spec_fail (by omega)
         · apply spec_lift_ok hrok
           apply spec_pure
-          refine ⟨⟨?_, ?_⟩, by omega⟩
+          obtain ⟨hdsz, hpall⟩ := hp
+          refine ⟨⟨?_, ?_, ?_⟩, by omega⟩
           · intro i hi
             simp only [Array.size_map] at hi
             have hraw : RawOK cs.toArray[i] := hall _ (by simp)
-            obtain ⟨h4, hfw⟩ := hp i hi (by omega)
+            obtain ⟨h4, _, hfw⟩ := hpall i hi (by omega)
             simp only [Array.getElem_map, Array.size_map]
             refine ⟨hraw.bits_le, hraw.mask_lt, hraw.ty_lt, by simpa [RawCell.toRow] using h4, ?_, hraw.pruned⟩
             intro r hr
@@ -688,10 +747,19 @@ theorem parseBocM_spec (boc : Bytes) (hb : boc.length < two63) :
             omega
           · intro r hr
             simpa using hroots r hr
+          · refine ⟨ds, by simp [hdsz], ?_⟩
+            intro i hi
+            simp only [Array.size_map] at hi
+            obtain ⟨_, hdi, hfw⟩ := hpall i hi (by omega)
+            refine ⟨hdi, ?_⟩
+            intro r hr
+            simp only [Array.getElem_map, RawCell.toRow, List.mem_map] at hr
+            obtain ⟨r0, hr0, rfl⟩ := hr
+            exact (hfw r0 hr0).2.2
     · intro s' hs
       have hK' := mul296 h.cellCount boc.length (by omega)
       generalize 296 * h.cellCount = K at hs hK'
-      simp only [szPtr, szSliceHdr] at *
+      simp only [szPtr, szSliceHdr, szUint] at *
       omega
   · intro s' hs; omega
 end Tongo.Boc
@@ -728,6 +796,30 @@ theorem unfold_isSome (t : Table) (hrows : ∀ i (h : i < t.size), RowOK t.size 
       have := hrow.refs_fwd r hr
       simp only [gt_iff_lt, this.1, if_true]
       exact ih r this.2 (by omega)
+    rcases hml : t[i].refs.mapM (fun r => if r > i then Table.unfold t fuel r else none) with _ | cs
+    · simp [hml] at hm
+    · simp
+
+/-- with the depth ranking, a fuel of depth + 1 is enough: the recursion depth of any structural recursion over a
+parsed cell is bounded by the depth limit, not by the input -/
+theorem unfold_isSome_depth (t : Table) (hrows : ∀ i (h : i < t.size), RowOK t.size i t[i]) (ds : Array Nat)
+    (hrank : ∀ i (h : i < t.size), ds[i]! ≤ maxDepth ∧ ∀ r ∈ t[i].refs, ds[r]! + 1 ≤ ds[i]!) :
+    ∀ fuel i, i < t.size → ds[i]! + 1 ≤ fuel → (Table.unfold t fuel i).isSome := by
+  intro fuel
+  induction fuel with
+  | zero => intro i hi hf; omega
+  | succ fuel ih =>
+    intro i hi hf
+    unfold Table.unfold
+    simp only [Array.getElem?_eq_getElem hi]
+    have hrow := hrows i hi
+    have hm : (t[i].refs.mapM (fun r => if r > i then Table.unfold t fuel r else none)).isSome := by
+      apply mapM_isSome
+      intro r hr
+      have := hrow.refs_fwd r hr
+      simp only [gt_iff_lt, this.1, if_true]
+      have := (hrank i hi).2 r hr
+      exact ih r (by omega) (by omega)
     rcases hml : t[i].refs.mapM (fun r => if r > i then Table.unfold t fuel r else none) with _ | cs
     · simp [hml] at hm
     · simp
